@@ -164,6 +164,17 @@ def run(case):
         body = fem.SolidBody(um, field, statevars=sv)
         r = body.assemble.vector(field).toarray()[:, 0]
         c.trans += 1
+        # the same body in other length units: nodal forces scale with s^2 (stress x revolved area / radius), the stiffness with s
+        K1 = body.assemble.matrix(field).toarray()
+        for sc in (1e-3, 1e-5, 1e3):
+            ms_ = fem.Mesh(mesh.points * sc, mesh.cells, mesh.cell_type)
+            fs_ = fem.FieldContainer([fem.FieldAxisymmetric(zoo.region(fam, ms_), dim=2, values=u0 * sc)])
+            bs_ = fem.SolidBody(um, fs_, statevars=sv)
+            rs_ = bs_.assemble.vector(fs_).toarray()[:, 0]
+            Ks_ = bs_.assemble.matrix(fs_).toarray()
+            c.trans += 2
+            c.cmp(f"length-units/s={sc}/vector", "axisymmetric nodal forces of the body scaled by s = s^2 x forces", rs_ / sc**2, r, 1e-9)
+            c.cmp(f"length-units/s={sc}/matrix", "axisymmetric stiffness of the body scaled by s = s x stiffness", Ks_ / sc, K1, 1e-9)
         # the checker's own revolved energy: sum_q W(F_q) 2 pi R_q dA_q, F = [[grad u, 0], [0, 1 + u_r / R]]
         h = np.asarray(region.h)[:, :, 0]  # a, q
         dhdX = np.asarray(region.dhdX)  # a, J, q, c
